@@ -105,9 +105,16 @@ def required_replay(_name):
         for combo in itertools.permutations(shapes, n):
             ir = {"name": "Conf", "doc": "Summary.", "params": OrderedDict((k, {"typ": t, "doc": "the " + k}) for k, t in combo), "returns": None}
             want = [k for k, t in combo if not t.startswith("Optional[")]
-            got = cdd.json_schema.emit.json_schema(copy.deepcopy(ir)).get("required")
+            sch = cdd.json_schema.emit.json_schema(copy.deepcopy(ir))
+            got = sch.get("required")
             if got != want:
                 return {"ir": json.loads(json.dumps(ir)), "what": "required is %r, the non-Optional parameters in declaration order are %r" % (got, want)}
+            import cdd.json_schema.parse
+
+            back = cdd.json_schema.parse.json_schema(copy.deepcopy(sch))
+            typs = [(k, (back["params"].get(k) or {}).get("typ")) for k, _t in combo]
+            if typs != [(k, t) for k, t in combo]:
+                return {"ir": json.loads(json.dumps(ir)), "what": "types %r came back as %r (required %r)" % ([(k, t) for k, t in combo], typs, got)}
     return None
 
 
